@@ -534,6 +534,29 @@ def make_wsgi(kinds, hot, framing, window, nnames, vmax, ncuts=2, content_type="
 
 
 # ---------------------------------------------------------------- query list
+FRAMING_FORM = [text_part("t", "a;b=c"), file_part("d", "r\u00e9.txt", "text/plain", b"\r\n--\r-b\n\x00--"),
+                text_part("t", ""), text_part("t", "last")]
+
+
+def make_framing(framing):
+    """a fixed 4-part form (repeated names, upload data with delimiter look-alikes) posted under every division the framing
+    layer can produce: two transfer-encoding chunks cut at every offset, resp. Content-Length with every max_memfile_size
+    (= read size of the body reader) from 1 to the body length + 1.  The division is a solver variable (realised per
+    value); every division must deliver exactly the submitted form."""
+    body, enc = encode(b"b", FRAMING_FORM)
+    need = budget(enc, FRAMING_FORM)
+
+    def q(v: int):
+        if framing == "chunked":
+            assume(0 <= v <= len(body))
+            status, seen = post(body, "multipart/form-data; boundary=b", need + 4, "chunked", int(v))
+        else:
+            assume(need <= v <= len(body) + 1)
+            status, seen = post(body, "multipart/form-data; boundary=b", int(v), "cl", 0)
+        return judge_post(status, seen, FRAMING_FORM, False)
+    return q, len(body)
+
+
 def queries(tier):
     T = tier == "thorough"
     out = []
@@ -634,6 +657,12 @@ def queries(tier):
             wsgi(kinds, hot, "chunked", "body", 2, 1, 3, 900)
         for kinds, framing in [("T", "cl"), ("TF", "cl"), ("FT", "chunked"), ("TFT", "chunked"), ("FF", "cl")]:
             wsgi(kinds, None, framing, "all", 2, 0, 2, 600)
+    for framing in ("chunked", "cl"):
+        fn, n = make_framing(framing)
+        out.append(Q("framing/%s" % framing, fn,
+                     "fixed 4-part form (repeated names, upload with delimiter look-alikes) of %d bytes, %s" % (n, "two chunks cut at every offset 0..len" if framing == "chunked" else
+                                                            "Content-Length framing with every max_memfile_size from the in-memory budget to len+1"),
+                     timeout=600, expect_cover=["delivered"], family="framing"))
     return out
 
 
